@@ -45,21 +45,21 @@ def fault_kind(msg):
 def mutations(ctx, size, th):
     """the finite family (DESIGN C06); quick strides it"""
     m = []
-    cuts = set(range(0, min(size, 513 if th else 49)))
+    cuts = set(range(0, min(size, 129 if th else 49)))
     cuts |= set(range(0, size, 64 if th else max(64, size // 24 // 64 * 64 or 64)))
     cuts |= {size - 1, size - 2, size // 2}
     for n in sorted(c for c in cuts if 0 <= c < size):
         m.append(('trunc', dict(kind='trunc', n=n)))
-    lim = min(size, 256 if th else 40)
-    offs = list(range(lim)) + (list(range(lim, size, max(1, size // (200 if th else 12)))) if size > lim else [])
+    lim = min(size, 64 if th else 40)
+    offs = list(range(lim)) + (list(range(lim, size, max(1, size // (40 if th else 12)))) if size > lim else [])
     for off in offs:
-        bits = range(8) if th and off < 64 else (0, 7)
+        bits = range(8) if th and off < 16 else (0, 7)
         for b in bits:
             m.append(('flip', dict(kind='flip', off=off, n=b)))
         for v in (0x00, 0x7f, 0x80, 0xff):
             m.append(('set', dict(kind='set', off=off, val=v)))
     for w in (2, 4, 8):
-        for off in range(0, min(size, 512 if th else 64), w):
+        for off in range(0, min(size, 96 if th else 64), w):
             for v in ((0xff, 0x7f, 0x80) if th else (0xff, 0x7f)):
                 m.append(('sat', dict(kind='sat', off=off, n=w, val=v)))
     for off in range(0, min(size, 256), 16):
@@ -101,7 +101,7 @@ def run(ctx):
     for fam in sorted(byfam):
         fs = sorted(byfam[fam], key=os.path.getsize)
         ctx.rng.shuffle(fs)
-        pick += sorted(fs[:(6 if th else 1)], key=os.path.getsize)[:(6 if th else 1)]
+        pick += sorted(fs[:(3 if th else 1)], key=os.path.getsize)[:(3 if th else 1)]
     jobs, obs = [], []
 
     def add(f, fmt, force, cls, mut, cli=False):
